@@ -128,6 +128,7 @@ def scripts(ln, nn, kind, seed):
         icf, ix = cf, x
     s2 = other_seed(seed)
     E = {}
+    outs_extra = []
 
     def s_construct():
         E["s"] = MAB([1, 2], lp_s, np_s, seed=seed)
@@ -144,13 +145,22 @@ def scripts(ln, nn, kind, seed):
             # by the tree's random state alone, which must come from the bandit's seed, not from process-wide state
             E["s"].add_arm(3)
             E["s"].partial_fit([3, 3, 3, 1], [1, 0, 1, 0], [list(XT[3]), list(XT[0]), list(XT[2]), list(XT[1])])
-        elif cf:
-            E["s"].partial_fit([2, 1], [1, 0])
+        elif cf or nn == "none":
+            # an arm added later and warm-started from its neighbour: its status must be its own, not something shared
+            # with arms added to other bandits of the process
+            E["s"].add_arm(3)
+            E["s"].warm_start({1: [1.0, 0.0], 2: [0.0, 1.0], 3: [1.0, 0.2]}, 1.0)
+            if cf:
+                E["s"].partial_fit([2, 1], [1, 0])
+            else:
+                E["s"].partial_fit([2, 1], [1, 0], [list(x[1]), list(x[2])])
+            outs_extra.append(ops.norm(list(E["s"].cold_arms)))
         else:
             E["s"].partial_fit([2, 1], [1, 0], [list(x[1]), list(x[2])])
 
     def s_expect():
-        return E["s"].predict_expectations() if cf else E["s"].predict_expectations([list(r) for r in q])
+        e = E["s"].predict_expectations() if cf else E["s"].predict_expectations([list(r) for r in q])
+        return [e, list(outs_extra)]
 
     def i_construct():
         E["i"] = MAB([1, 2], lp_i, np_i, seed=s2)
@@ -161,6 +171,9 @@ def scripts(ln, nn, kind, seed):
         if kind == "tree" or tree:
             E["i"].add_arm(7)
             E["i"].partial_fit([7, 7, 7], [0, 1, 1], [list(XT[1]), list(XT[3]), list(XT[0])])
+        elif np_i is None:
+            E["i"].add_arm(7)
+            E["i"].warm_start({1: [1.0, 0.0], 2: [0.0, 1.0], 7: [0.1, 1.0]}, 1.0)
 
     def i_predict():
         E["i"].predict() if icf else E["i"].predict([list(v) for v in ix[:2]])
@@ -230,10 +243,12 @@ def part_a(shard, acc):
 
 
 # ---------------------------------------------------------------- (b) processes
-def str_script_digests(seed):
-    """Digest of the outputs of a richer script with str arm labels, per combination."""
+def str_script_digests(seed, reverse=False):
+    """Digest of the outputs of a richer script with str arm labels, per combination.  reverse: the combinations are
+    run in the opposite order (whatever earlier bandits leave behind in the process then differs)."""
     out = {}
-    for ln, nn in A.combos(lints1=True):
+    combos_ = A.combos(lints1=True)
+    for ln, nn in (reversed(combos_) if reverse else combos_):
         cfg = A.config(ln, nn, arms=["b", "a", "c"], seed=seed)
         cf = ops.is_context_free(cfg)
         tree = nn == "tree"
@@ -320,4 +335,4 @@ def replay(w):
 
 
 if __name__ == "__main__":
-    print(json.dumps(str_script_digests(int(sys.argv[1]))))
+    print(json.dumps(str_script_digests(int(sys.argv[1]), reverse=True)))
